@@ -41,7 +41,18 @@ UNIT['predefined_structs'] = list(_b.get('predefined_structs', [])) + ['taskmap'
 UNIT['prelude'] = _b['prelude'] + 'struct taskmap { size_t n; }; struct taskmap_it { struct Task *task; };\n'
 UNIT['types'] = dict(_b['types'], **{'std::string': 'vstr', 'string': 'vstr', 'basic_string<char>': 'vstr', 'Twine': 'void *', 'llvm::Twine': 'void *'})
 UNIT['by_pointer'] = list(_b.get('by_pointer', [])) + ['vstr']
-UNIT['no_translate'] = list(_b.get('no_translate', [])) + ['scanRule', 'demandRule', 'getPendingScanRecord', 'getPendingTaskInfo', 'cancelRemainingTasks', 'append', 'setRuleResult', 'updateStatus']
+UNIT['no_translate'] = list(_b.get('no_translate', [])) + ['getKeyID', 'abort', 'scanRule', 'demandRule', 'getPendingScanRecord', 'getPendingTaskInfo', 'cancelRemainingTasks', 'append', 'setRuleResult', 'updateStatus']
+
+
+def _rule_for_key(tr, n, obj, args, argnodes):
+    """getRuleInfoForKey(KeyID) -- the model of unit engine -- or getRuleInfoForKey(const KeyType&): the record the key text maps to (ghost g_ri_b)"""
+    t = tr.ntype(argnodes[0])
+    if 'KeyID' in t.base:
+        return '(*BuildEngineImpl_getRuleInfoForKey(%s, %s))' % (obj, tr.expr(argnodes[0]))
+    return '(*verif_rule_for_key_text(%s, %s))' % (obj, tr.addr(tr.expr(argnodes[0])))
+
+
+UNIT['globals'] = dict(_b.get('globals', {}), kMaximumInputID='(~(uintptr_t)0xFF)', kMustFollowInputID='(~(uintptr_t)0)')
 UNIT['drop_locals'] = _b.get('drop_locals', []) + [r'TracingEngineQueueItemEvent']
 UNIT['calls'] = dict(_b['calls'], **{
     'm:@vec_TaskInfoPtr::front': '(*vec_TaskInfoPtr_front($o))', 'm:@vec_TaskInfoPtr::pop_front': 'vec_TaskInfoPtr_pop_front', 'm:@vec_TaskInfoPtr::empty': 'vec_TaskInfoPtr_empty',
@@ -51,6 +62,7 @@ UNIT['calls'] = dict(_b['calls'], **{
     'm:DependencyKeyIDs::append': 'DependencyKeyIDs_append', 'range:@struct DependencyKeyIDs': ('DependencyKeyIDs_size', 'verif_deps_at'),
     'm:DependencyKeyIDs::push_back': ('DependencyKeyIDs_push_back3', 'vvv'), 'm:RuleInfo::getPendingScanRecord': 'verif_pending_scan_record', 'm:BuildEngineImpl::RuleInfo::getPendingScanRecord': 'verif_pending_scan_record',
     'm:RuleInfo::getPendingTaskInfo': 'verif_pending_task_info', 'm:BuildEngineImpl::RuleInfo::getPendingTaskInfo': 'verif_pending_task_info',
+    'm:BuildEngineImpl::getRuleInfoForKey': _rule_for_key, 'fn:abort': 'verif_abort', 'm:BuildEngineImpl::getKeyID': 'verif_key_id',
     'm:@vec_TaskInputRequest::front': '(*vec_TaskInputRequest_front($o))', 'm:@vec_TaskInputRequest::pop_front': 'vec_TaskInputRequest_pop_front',
 })
 KEEP = []
@@ -267,5 +279,47 @@ UNIT['functions'] = {
                       'g_pti_buf[0].taskInfo == g_taskinfo && g_pti_buf[0].inputRuleInfo == g_ri_b && g_pti_buf[0].inputID == OLD(self->inputRequests.ptr[0].inputID))'),
         ],
     },
+    # the calls a task makes through TaskInterface
+    'BuildEngineImpl::addTaskInputRequest': {
+        'requires': ['__CPROVER_is_fresh(self, sizeof(*self))', 'g_engine == self', '__CPROVER_is_fresh(g_taskinfo, sizeof(struct BuildEngineImpl_TaskInfo))',
+                     '__CPROVER_is_fresh(g_ri_a, sizeof(struct BuildEngineImpl_RuleInfo))', '__CPROVER_pointer_in_range_dfcc(g_ri_a, g_taskinfo->forRuleInfo, g_ri_a)',
+                     'VEC_OKN(self->inputRequests, struct BuildEngineImpl_TaskInputRequest, 8) && self->inputRequests.len < 8', '!self->inputRequestsMutex.held && !self->taskInfosMutex.held',
+                     'g_taskinfo->waitCount < 1000000', 'g_aborts == 0'],
+        'assigns': ['self->inputRequests.len', '__CPROVER_object_whole(self->inputRequests.ptr)', 'self->inputRequestsMutex.held', 'g_taskinfo->waitCount', 'g_aborts'],
+        'ensures': [
+            # a request is accepted only from a task that has not been told inputs-available (the process is aborted otherwise)
+            ('P:C06', '(g_ri_a->state != BuildEngineImpl_RuleInfo_StateKind_InProgressWaiting) ==> g_aborts == 1'),
+            # exactly one request is queued, carrying the task, its id, the rule of the key and the flags; it is counted in the task's wait count
+            ('P:C06,P:C01', '(g_ri_a->state == BuildEngineImpl_RuleInfo_StateKind_InProgressWaiting) ==> (self->inputRequests.len == OLD(self->inputRequests.len) + 1 && g_taskinfo->waitCount == OLD(g_taskinfo->waitCount) + 1 && '
+                            'self->inputRequests.ptr[OLD(self->inputRequests.len)].taskInfo == g_taskinfo && self->inputRequests.ptr[OLD(self->inputRequests.len)].inputID == inputID && '
+                            'self->inputRequests.ptr[OLD(self->inputRequests.len)].inputRuleInfo == g_ri_b && (self->inputRequests.ptr[OLD(self->inputRequests.len)].orderOnly != 0) == (orderOnly != 0) && '
+                            '(self->inputRequests.ptr[OLD(self->inputRequests.len)].singleUse != 0) == (singleUse != 0) && self->inputRequests.ptr[OLD(self->inputRequests.len)].forcePriorValue == 0)'),
+            ('P:C06', '!self->inputRequestsMutex.held'),
+        ]},
+    'BuildEngineImpl::taskDiscoveredDependency': {
+        'requires': ['__CPROVER_is_fresh(self, sizeof(*self))', 'g_engine == self', '__CPROVER_is_fresh(self->delegate, sizeof(*self->delegate))', '__CPROVER_is_fresh(g_taskinfo, sizeof(struct BuildEngineImpl_TaskInfo))',
+                     '__CPROVER_is_fresh(g_ri_a, sizeof(struct BuildEngineImpl_RuleInfo))', '__CPROVER_pointer_in_range_dfcc(g_ri_a, g_taskinfo->forRuleInfo, g_ri_a)',
+                     'VEC_OKN(g_taskinfo->discoveredDependencies.items, struct KeyIDAndFlags, 8) && g_taskinfo->discoveredDependencies.items.len < 8', '!self->taskInfosMutex.held', 'g_errors == 0'],
+        'assigns': ['g_errors', 'self->buildCancelled', 'g_taskinfo->discoveredDependencies.items.len', '__CPROVER_object_whole(g_taskinfo->discoveredDependencies.items.ptr)'],
+        'ensures': [
+            # a discovered dependency is accepted only while the task is computing, and is recorded as a plain (not order-only, not single-use) dependency on that key
+            ('P:C11,P:C06', '(g_ri_a->state == BuildEngineImpl_RuleInfo_StateKind_InProgressComputing) ? (g_taskinfo->discoveredDependencies.items.len == OLD(g_taskinfo->discoveredDependencies.items.len) + 1 && '
+                            'g_taskinfo->discoveredDependencies.items.ptr[OLD(g_taskinfo->discoveredDependencies.items.len)].keyID._value == g_dep_key_id && '
+                            '!g_taskinfo->discoveredDependencies.items.ptr[OLD(g_taskinfo->discoveredDependencies.items.len)].orderOnly && !g_taskinfo->discoveredDependencies.items.ptr[OLD(g_taskinfo->discoveredDependencies.items.len)].singleUse && g_errors == 0) '
+                            ': (g_taskinfo->discoveredDependencies.items.len == OLD(g_taskinfo->discoveredDependencies.items.len) && g_errors == 1 && self->buildCancelled != 0)'),
+        ]},
 }
+CALLERS = '''    'BuildEngineImpl::taskNeedsInput': {
+        'requires': ['__CPROVER_is_fresh(self, sizeof(*self))', 'g_engine == self', '__CPROVER_is_fresh(self->delegate, sizeof(*self->delegate))', 'g_errors == 0 && g_add_calls == 0'],
+        'assigns': ['g_errors', 'self->buildCancelled', 'g_add_calls', 'g_add_id', 'g_add_order_only', 'g_add_single_use', 'g_add_key'],
+        'ensures': [
+            # reserved ids are refused (the build is cancelled with an error), every other id is queued as a value request
+            ('P:C06', '(inputID > (~(uintptr_t)0xFF)) ? (g_add_calls == 0 && g_errors == 1 && self->buildCancelled != 0) : (g_add_calls == 1 && g_add_id == inputID && !g_add_order_only && !g_add_single_use && g_add_key == (const void *)key && g_errors == 0)'),
+        ]},
+    'BuildEngineImpl::taskMustFollow': {
+        'requires': ['__CPROVER_is_fresh(self, sizeof(*self))', 'g_engine == self', 'g_add_calls == 0'],
+        'assigns': ['g_add_calls', 'g_add_id', 'g_add_order_only', 'g_add_single_use', 'g_add_key'],
+        # a must-follow key is an order-only request under the reserved id (no value will be delivered for it)
+        'ensures': [('P:C06', 'g_add_calls == 1 && g_add_id == (~(uintptr_t)0) && g_add_order_only && !g_add_single_use && g_add_key == (const void *)key')]},
+'''
 UNIT = _e._views(UNIT)
